@@ -15,6 +15,7 @@ import (
 	"strconv"
 	"strings"
 	"sync"
+	"sync/atomic"
 	"time"
 
 	"github.com/basecomplextech/baselibrary/async"
@@ -72,13 +73,28 @@ type ctl struct {
 	arrive   chan arrival
 	put      chan int64
 	done     chan int64 // completion of the receiver's arm / poll step (1 = the poll returned a message)
+	prefix   string     // "rq." or "wq."
+	idle     atomic.Bool
 }
 
 func (c *ctl) trace(ev string, id bin.Bin128, a, b int64) {
+	// the send-loop layer watches the connection's write queue (wq.*), the others a channel's receive queue (rq.*)
+	if len(ev) < 4 || ev[:3] != c.prefix {
+		return
+	}
+	ev = "rq." + ev[3:]
 	switch ev {
 	case "rq.arm", "rq.poll", "rq.put", "rq.arm.done", "rq.poll.done":
 	default:
 		return
+	}
+	if c.prefix == "wq." {
+		// idle: the send loop polled an empty queue and nothing was queued since
+		if ev == "rq.poll.done" && a == 0 {
+			c.idle.Store(true)
+		} else if ev == "rq.put" || (ev == "rq.poll.done" && a == 1) {
+			c.idle.Store(false)
+		}
 	}
 	c.mu.Lock()
 	if debug {
@@ -96,7 +112,7 @@ func (c *ctl) trace(ev string, id bin.Bin128, a, b int64) {
 		}
 		return
 	}
-	if goid() != c.consumer {
+	if c.prefix != "wq." && goid() != c.consumer {
 		c.mu.Unlock()
 		return
 	}
@@ -221,6 +237,8 @@ type layer struct {
 	open  func() (recv func(async.Context) ([]byte, status.Status), free func(), id bin.Bin128, err error)
 	frame func(kind string, k int) []byte // the bytes the peer puts into the data frame
 	peer  func() *peer.Peer               // the raw peer which produces the data frames
+	// produce, when set, queues the k-th message instead of the raw peer (send-loop layer: a Send of the library itself)
+	produce func(kind string, k int) error
 }
 
 func runSchedule(idx int, rec *Rec, c *ctl, ly *layer, srv *rawServer, report func(sig, detail string)) (fatal bool) {
@@ -239,6 +257,9 @@ func runSchedule(idx int, rec *Rec, c *ctl, ly *layer, srv *rawServer, report fu
 	go func() {
 		c.mu.Lock()
 		c.target, c.consumer, c.active = id, goid(), true
+		if c.prefix == "wq." {
+			c.target = bin.Bin128{} // connection-level events carry no channel id
+		}
 		c.mu.Unlock()
 		close(ready)
 		var r result
@@ -271,7 +292,13 @@ func runSchedule(idx int, rec *Rec, c *ctl, ly *layer, srv *rawServer, report fu
 	ok := true
 	for k, s := range rec.Sched {
 		if s[0] == "P" {
-			if err := ly.peer().WriteFrame(peer.Data(id, ly.frame(s[1], sent))); err != nil {
+			var err error
+			if ly.produce != nil {
+				err = ly.produce(s[1], sent)
+			} else {
+				err = ly.peer().WriteFrame(peer.Data(id, ly.frame(s[1], sent)))
+			}
+			if err != nil {
 				report("harness", "write: "+err.Error())
 				c.free()
 				return true
@@ -354,7 +381,10 @@ func main() {
 	seed := flag.Int("seed", 1, "offset for -every")
 	layerName := flag.String("layer", "mpx", "mpx: Channel.Receive; rpc: the rpc client's streaming Receive")
 	flag.Parse()
-	c := &ctl{arrive: make(chan arrival, 16), put: make(chan int64, 16), done: make(chan int64, 16)}
+	c := &ctl{arrive: make(chan arrival, 16), put: make(chan int64, 16), done: make(chan int64, 16), prefix: "rq."}
+	if *layerName == "sendloop" {
+		c.prefix = "wq."
+	}
 	mpx.SetVerifTracer(c.trace)
 	enc := json.NewEncoder(os.Stdout)
 	nMis, n, steps := 0, 0, 0
@@ -518,6 +548,59 @@ func main() {
 			return err
 		}
 		conn = cn
+		if *layerName == "sendloop" {
+			// the consumer is the connection's send loop, the producer the library's own Send, the observer the raw peer
+			var cur mpx.Channel
+			ly.open = func() (func(async.Context) ([]byte, status.Status), func(), bin.Bin128, error) {
+				ch, st := conn.Channel(async.NoContext())
+				if !st.OK() {
+					return nil, nil, bin.Bin128{}, fmt.Errorf("channel: %v", st)
+				}
+				if st := ch.Send(async.NoContext(), []byte("open")); !st.OK() {
+					ch.Free()
+					return nil, nil, bin.Bin128{}, fmt.Errorf("send: %v", st)
+				}
+				id, err := srv.waitOpen()
+				if err != nil {
+					ch.Free()
+					return nil, nil, id, err
+				}
+				deadline := time.Now().Add(stepTimeout)
+				for !c.idle.Load() && time.Now().Before(deadline) {
+					time.Sleep(100 * time.Microsecond)
+				}
+				if !c.idle.Load() {
+					ch.Free()
+					return nil, nil, id, fmt.Errorf("the send loop did not become idle")
+				}
+				cur = ch
+				recv := func(ctx async.Context) ([]byte, status.Status) {
+					for {
+						select {
+						case f, ok := <-srv.got:
+							if !ok {
+								return nil, status.Closedf("peer connection ended")
+							}
+							if f.Code == pmpx.Code_ChannelData && f.ID == id {
+								return f.Data, status.OK
+							}
+						case <-ctx.Wait():
+							return nil, ctx.Status()
+						}
+					}
+				}
+				return recv, ch.Free, id, nil
+			}
+			ly.produce = func(kind string, k int) error {
+				if st := cur.Send(async.TimeoutContext(stepTimeout), payload(kind, k)); !st.OK() {
+					return fmt.Errorf("send: %v", st)
+				}
+				return nil
+			}
+			ly.frame = payload
+			ly.peer = func() *peer.Peer { return srv.p }
+			return nil
+		}
 		ly.open = func() (func(async.Context) ([]byte, status.Status), func(), bin.Bin128, error) {
 			ch, st := conn.Channel(async.NoContext())
 			if !st.OK() {
